@@ -824,7 +824,7 @@ def getConstructorName (env : Env) (st : NsState) (f : Node) (subsymbol : Str) :
       let pfx := match lookupCT env st f.ret with
         | some t => getUscoredPrefix t subsymbol
         | none => []
-      if containsSub f.cid pfx then (nameAfterPrefix f.cid subsymbol pfx).getD f.name else f.name
+      if startsWith subsymbol (pfx ++ ['_']) then (nameAfterPrefix f.cid subsymbol pfx).getD f.name else f.name
     else f.name
 
 def ctorCapable (t : Target) : Bool :=
@@ -836,23 +836,20 @@ def giName (env : Env) (t : Target) : Str :=
    | .cur => env.cfg.cur.name
    | .inc i => (env.cfg.incs.map (·.name)).getD i []) ++ ['.'] ++ t.name
 
-def rootClass : Str := "GObject.Object".toList
-
 inductive Walk where
   | found          -- `parent == target`: break
-  | reachedRoot    -- the loop condition fails at GObject.Object
   | broken         -- `parent is None`: warn, return False
-  | noParentAttr   -- `parent.parent_type` on a Record/Union/Boxed: AttributeError escapes
+  | noParentAttr   -- `parent.parent_type` on a Record/Union/Boxed reached THROUGH a parent link:
+                   -- AttributeError (a class whose parent GType is not classed: GType forbids it)
   | exhausted      -- model fuel (cyclic parent chains do not come out of a GType dump)
   deriving Repr, DecidableEq
 
-/-- the `while parent and (not parent.gi_name == 'GObject.Object')` loop of `_is_constructor` -/
-def ancestorWalk (env : Env) (st : NsState) (target : Target) : Nat → Option Target → Walk
+/-- the `while parent:` loop of `_is_constructor` (entered with the constructed class; every
+    later `parent` is the node `lookup_typenode(parent.parent_type)` found, `None` returns False) -/
+def ancestorWalk (env : Env) (st : NsState) (target : Target) : Nat → Target → Walk
   | 0, _ => .exhausted
-  | _, none => .reachedRoot          -- `while parent` with parent None (only at loop entry)
-  | fuel + 1, some parent =>
-    if giName env parent == rootClass then .reachedRoot
-    else if parent.ns == target.ns && parent.name == target.name then .found
+  | fuel + 1, parent =>
+    if parent.ns == target.ns && parent.name == target.name then .found
     else if !(parent.kind == .cls || parent.kind == .iface) then .noParentAttr
     else
       match parent.parent with
@@ -860,7 +857,7 @@ def ancestorWalk (env : Env) (st : NsState) (target : Target) : Nat → Option T
       | some ref =>
         match lookupGiname env st ref with
         | none => .broken
-        | some p => ancestorWalk env st target fuel (some p)
+        | some p => ancestorWalk env st target fuel p
 
 def walkFuel (env : Env) (st : NsState) : Nat :=
   st.names.length + (env.incNodes.map List.length).sum + 2
@@ -878,13 +875,13 @@ def firstArgIs (env : Env) (st : NsState) (f : Node) (origin : Target) : Bool :=
      | none => false)
   | [] => false
 
-/-- the last part of `_is_constructor`: is the return type the constructed type or, for
-    classes, one of its ancestors?  `.crash` is the AttributeError of the ancestor walk -/
+/-- the last part of `_is_constructor`: is the return type the constructed type or, when both
+    are classes, one of its ancestors?  `.crash` is the AttributeError of a walk that meets a
+    non-class node through a parent link (see `Walk.noParentAttr`) -/
 def returnVerdict (env : Env) (st : NsState) (target origin : Target) : CtorVerdict :=
-  if target.kind == .cls then
-    match ancestorWalk env st target (walkFuel env st) (some origin) with
+  if target.kind == .cls && origin.kind == .cls then
+    match ancestorWalk env st target (walkFuel env st) origin with
     | .found => .yes
-    | .reachedRoot => .yes
     | .noParentAttr => .crash
     | _ => .no
   else if origin.ns == target.ns && origin.name == target.name then .yes else .no
